@@ -7,6 +7,10 @@ ids = [p["id"] for p in props]
 
 # id -> (technique, level text, level note, design ref)
 claimed = {
+ "C06": ("stateless schedule exploration of the real code under a controlled scheduler (iterative preemption bounding, CHESS style), with the Go race detector active inside every enumerated schedule",
+         "For harnesses of one writer (Set/Remove/SaveVersion/DeleteVersionsTo) and 1-2 readers of committed versions (Get, GetWithIndex, Has, Iterator, GetProof, GetImmutable of the latest version), node cache 0/100, fast index on/off: every schedule with at most 2 (quick) / 3 (thorough) preemptions (one less for the 3-thread harness and for the -race build) over the scheduling points {every Lock/RLock of iavl's mutexes, every storage call} is executed on the real code; every reader result must equal the contents of its version as of its commit, and the race detector must stay silent in every schedule.",
+         "The iavl sources are rebuilt with \"sync\" replaced by a shim (check/vrtsrc) that reports lock operations to the scheduler; the hand-off uses raw futex calls from //go:norace code so that the scheduler adds no happens-before edge. Not covered: export pinning and background pruning (goroutines/channels are not rewritten), > 3 threads.",
+         "DESIGN.md §4 C06"),
  "C16": ("explicit-state exploration of new-format continuations started from legacy-format databases written by the real legacy library (iavl v0.20.0) for an enumerated set of legacy histories incl. every subset of legacy-side deletions",
          "For every enumerated legacy history (1-3 versions, <= 2 writes, every subset of legacy-side DeleteVersion of non-latest versions, legacy fast index on and off; 2418 fixtures in quick) the database written by iavl v0.20.0 opens with every legacy version available with the contents and root hashes the legacy library reported (and the independent reference agrees with them); then every continuation of <= 3 (thorough: 5) steps over {Set, Remove, SaveVersion incl. no-write commits on a legacy root, DeleteVersionsTo below/at/above the boundary, LoadVersionForOverwriting to a legacy version, reopen} keeps every version that must remain readable with its contents and canonical hash, live and after restart.",
          "Trusted: the legacy library itself as the writer of fixtures; check/ref. Unavailability of pruned legacy versions is not asserted.",
